@@ -32,3 +32,22 @@ Theorem C20_quarter_turns :
   rodrigues (PI / 2) (mk_vec3 0 0 (-1)) (mk_vec3 1 0 0) = mk_vec3 0 (-1) 0.
 Proof. exact quarter_turns. Qed.
 Print Assumptions C20_perpendicular_turns_by_theta.
+
+(* group laws (consequences of the Rodrigues form): a zero turn and a full turn are the identity, turns about the same
+   axis add, turning back by -t undoes the turn — for every non-zero axis and every vector *)
+Theorem C20_zero_turn_is_identity : forall axis v, (vec3_x axis <> 0 \/ vec3_y axis <> 0 \/ vec3_z axis <> 0) ->
+  rotate_vector_around_an_axis 0 axis v = v.
+Proof. exact rotate_zero. Qed.
+Theorem C20_turns_about_one_axis_add : forall s t axis v, (vec3_x axis <> 0 \/ vec3_y axis <> 0 \/ vec3_z axis <> 0) ->
+  rotate_vector_around_an_axis s axis (rotate_vector_around_an_axis t axis v) = rotate_vector_around_an_axis (s + t) axis v.
+Proof. exact rotate_compose. Qed.
+Theorem C20_opposite_turn_undoes : forall t axis v, (vec3_x axis <> 0 \/ vec3_y axis <> 0 \/ vec3_z axis <> 0) ->
+  rotate_vector_around_an_axis (- t) axis (rotate_vector_around_an_axis t axis v) = v.
+Proof. exact rotate_inverse. Qed.
+Theorem C20_full_turn_is_identity : forall axis v, (vec3_x axis <> 0 \/ vec3_y axis <> 0 \/ vec3_z axis <> 0) ->
+  rotate_vector_around_an_axis (2 * PI) axis v = v.
+Proof. exact rotate_full_turn. Qed.
+(* reversing the (unit) axis reverses the sense of rotation: right-handedness is tied to the direction of the axis *)
+Theorem C20_reversed_axis_reverses_sense : forall t k v, rodrigues t (scal (-1) k) v = rodrigues (- t) k v.
+Proof. exact rodrigues_neg_axis. Qed.
+Print Assumptions C20_turns_about_one_axis_add.
